@@ -8,6 +8,8 @@ CONSTANTS
   MaxMig = 4
   Serial = FALSE
   Requesters = {1, 2}
+  MCPages <- ScenPages
+  SkipZero = FALSE
   AcceptGuard = "handling"
   LazyCtrl = FALSE
 INVARIANTS ContentsCopied NothingElseChanged CompleteOnce OneAtATime RoutedBack
